@@ -6,11 +6,10 @@ from . import common as c
 def plan(tier, seed, kf_ids):
     jobs = []
     for s, w in c.FAMILIES:
-        if tier == "quick":
-            fr = sorted(set(c.boundary_fracs7(w) + c.seeded_fracs(w, seed, 2)))
-        else:
-            fr = c.all_fracs(w)
-        for f in fr:
+        first = set(c.boundary_fracs7(w) + c.seeded_fracs(w, seed, 2))
+        # every alias in both tiers (1-7 s each); in the quick tier the boundary and seeded counts are decided first and the
+        # remaining ones as far as the run budget allows
+        for f in c.all_fracs(w):
             name = "c06_" + c.tag(s, w, f)
             code = "#[kani::proof]\npub fn %s() { round_all::<%s>(); }" % (name, c.ty(s, w, f))
             jobs.append(Job(name, code,
@@ -18,13 +17,14 @@ def plan(tier, seed, kf_ids):
                             "round, round_ties_to_even equal exact integer rounding (flag, wrapped value, saturation "
                             "side); round_to_zero; int + frac == value, frac in [0,1)" % c.alias(s, w, f),
                             timeout=600, inst=c.alias(s, w, f), bounds="all 2^%d values" % w))
+            jobs[-1].prio = 3 if f in first else 8
     return {
         "feature": "c06",
         "jobs": jobs,
         "functions": ["macros_round.rs: int, frac, round_to_zero, {,checked_,saturating_,wrapping_,overflowing_}"
                       "{ceil,floor,round,round_ties_to_even} via the Fixed trait delegation (traits.rs)"],
-        "bounds": "every value of each instantiated alias; quick: fractional counts {0,1,2,W/2,W-2,W-1,W} + 2 seeded "
-                  "per family; thorough: all 507 aliases",
+        "bounds": "every value of each of the 507 aliases (both tiers; the quick tier decides the fractional counts {0,1,2,W/2,W-2,W-1,W} + 2 "
+                  "seeded per family first and the others as far as its run budget allows)",
         "outside": ["aliases not instantiated in the quick tier"],
         "assumptions": ["oracle: sign/magnitude rounding in u128/256-bit limbs (hk/src/c06.rs)",
                         "plain forms are only called when the result is representable (documented panic otherwise)"],
